@@ -116,5 +116,5 @@ TARGETS = {
             T(B + 'level_of_var'), T(B + 'var', B + 'var!body'), T('dd.bdd.rename'), T(B + '_next_free_int')]
     + apply_targets(['not', 'and', 'ite', 'forall']) + PLUMBING[1:]
     + [T(AF + '__init__'), T(ABD + '_wrap'), T(ABD + '_add_int'), T(ABD + 'var'), T(ABD + 'ite'), T(ABD + 'quantify')] + aapply_targets(['!', '||', 'ite']) + ARITY + [T(ABD + '__contains__'), T(B + '_add_int')] + M2L + SWAPV[2:],
-    'C18': [T(B + 'succ')] + AVIEWS + [T(B + '_descendants'), T(B + 'descendants')],
+    'C18': [T(B + 'succ'), T(B + '__len__'), T(B + '__contains__')] + AVIEWS + [T(B + '_descendants'), T(B + 'descendants')],
 }
